@@ -102,7 +102,7 @@ def runSection (r : Report) (s : Section) : Report := Id.run do
     else
       match (kv? l.obs "closed").bind idList, (kv? l.obs "multi").bind idList with
       | some once, some multi =>
-        let want := (inj.map (·.2) ++ (h.filter fun c => c.ran && !c.serr && (inj.lookup c.key).isNone).map (·.id)).foldr insertSorted []
+        let want := (inj.map (·.2) ++ (h.filter fun c => c.created && (inj.lookup c.key).isNone).map (·.id)).foldr insertSorted []
         if once.foldr insertSorted [] ≠ want || multi ≠ [] || kvStr l.obs "err" "?" ≠ "-" then
           r := r.mismatch s.idx l.idx s!"model: Close closes each held instance once: {want}" (joinSp l.obs)
         else r := r.addCover "rm-close-all-held-instances-closed-once"
@@ -130,6 +130,7 @@ def runSection (r : Report) (s : Section) : Report := Id.run do
     if o.err.isSome then r := r.addCover s!"{mode}-err-result"
     if o.hold then r := r.addCover s!"{mode}-held"
     if o.panicked then r := r.addCover s!"{mode}-fn-panicked"
+    if mode = "rm" && !o.ran && o.panicked then r := r.addCover "rm-joiner-of-panicked-flight-panics"
     if mode = "sf" && !o.ran && o.val.isNone && !o.panicked then r := r.addCover "sf-joiner-of-panicked-flight-got-zero"
     if mode = "sf" then
       if !o.ran then
@@ -147,8 +148,8 @@ def runSection (r : Report) (s : Section) : Report := Id.run do
       if h.any (fun p => p.key = o.key && p.id ≠ o.id && p.ran && o.ran && p.inv < o.inv && o.inv < p.fe.getD 0) then
         r := r.addCover "lc-waited-for-running-call"
     if mode = "rm" then
-      if o.ran && !o.serr then r := r.addCover "rm-created"
-      if o.ran && o.serr then r := r.addCover "rm-create-failed"
+      if o.created then r := r.addCover "rm-created"
+      if o.ran && o.serr && !o.spanic then r := r.addCover "rm-create-failed"
       if !o.ran && o.val.isSome then r := r.addCover "rm-got-existing"
       if (inj.lookup o.key).isSome then r := r.addCover "rm-call-on-registered-key"
   return r
